@@ -217,16 +217,17 @@ func H_C18_yieldBlock() {
 	}
 	set := hxSet(nil,
 		"/lib.jet", `{{ block b() }}{{ count() }}[{{ . }}]{{ end }}`,
-		"/m.jet", `{{ import "/lib.jet" }}<{{ y() }}>{{ include "/inc.jet" }}`,
-		"/inc.jet", `{{ if true }}{{ z := 1 }}<{{ y() }}>{{ end }}`,
-		"/s.jet", `{{ import "/lib.jet" }}<{{ yield b() ctxv }}>{{ include "/sinc.jet" }}`,
-		"/sinc.jet", `{{ if true }}{{ z := 1 }}<{{ yield b() ctxv }}>{{ end }}`,
-		"/s0.jet", `{{ import "/lib.jet" }}<{{ yield b() }}>{{ include "/s0inc.jet" }}`,
-		"/s0inc.jet", `{{ if true }}{{ z := 1 }}<{{ yield b() }}>{{ end }}`,
+		"/m.jet", `{{ import "/lib.jet" }}<{{ y() }}|{{ . }}>{{ include "/inc.jet" }}{{ range i, e := one }}<{{ y() }}|{{ . }}>{{ end }}`,
+		"/inc.jet", `{{ if true }}{{ z := 1 }}<{{ y() }}|{{ . }}>{{ end }}`,
+		"/s.jet", `{{ import "/lib.jet" }}<{{ yield b() ctxv }}|{{ . }}>{{ include "/sinc.jet" }}{{ range i, e := one }}<{{ yield b() ctxv }}|{{ . }}>{{ end }}`,
+		"/sinc.jet", `{{ if true }}{{ z := 1 }}<{{ yield b() ctxv }}|{{ . }}>{{ end }}`,
+		"/s0.jet", `{{ import "/lib.jet" }}<{{ yield b() }}|{{ . }}>{{ include "/s0inc.jet" }}{{ range i, e := one }}<{{ yield b() }}|{{ . }}>{{ end }}`,
+		"/s0inc.jet", `{{ if true }}{{ z := 1 }}<{{ yield b() }}|{{ . }}>{{ end }}`,
 	)
 	mk := func() VarMap {
 		vars := make(VarMap)
 		vars.Set("ctxv", 7)
+		vars.Set("one", []int{1})
 		vars.SetFunc("count", log.probe("body", ""))
 		vars.SetFunc("y", func(a Arguments) reflect.Value {
 			if withCtx {
@@ -246,7 +247,7 @@ func H_C18_yieldBlock() {
 	}
 	vfReach("rendered")
 	vfAssert(err == nil, "renders")
-	vfAssert(log.String() == "body,body", "the block body runs exactly once per call")
+	vfAssert(log.String() == "body,body,body", "the block body runs exactly once per call")
 	log.events = nil
 	twin := "/s0.jet"
 	if withCtx {
